@@ -76,6 +76,22 @@ pub mod record {
             FPS.lock().unwrap().get_or_insert_with(HashSet::new).insert(fp);
         }
     }
+    /// signatures listed in /verif/known_findings.json (loaded once, before any execution)
+    pub static KNOWN: Mutex<Vec<String>> = Mutex::new(Vec::new());
+    pub static KNOWN_HITS: Mutex<Vec<(String, String)>> = Mutex::new(Vec::new());
+    /// An oracle reports a violation. One that is a listed known finding is counted and the execution goes on
+    /// (a panic would end the whole batch at its first occurrence and nothing else would be explored);
+    /// anything else panics and fails the batch.
+    pub fn violation(sig: &str, msg: String) {
+        if KNOWN.lock().unwrap().iter().any(|k| k == sig) {
+            let mut h = KNOWN_HITS.lock().unwrap();
+            if h.len() < 1000 {
+                h.push((sig.to_string(), msg));
+            }
+            return;
+        }
+        panic!("{msg}");
+    }
     pub fn take_fps() -> Vec<u64> {
         FPS.lock().unwrap().take().map(|s| s.into_iter().collect()).unwrap_or_default()
     }
